@@ -313,21 +313,25 @@ func (g *gen) windows(st Step) []Split {
 	case OpEvent, OpUpdateSub:
 		p := m.Periods[st.Period]
 		for _, i := range p.Subs {
-			c := st
-			c.Split = &Split{Point: PtUpdate, Target: i}
-			if m.PredictReach(c) {
-				out = append(out, *c.Split)
+			for _, pt := range []string{PtUpdate, PtWFlush} {
+				c := st
+				c.Split = &Split{Point: pt, Target: i}
+				if m.PredictReach(c) {
+					out = append(out, *c.Split)
+				}
 			}
 		}
 	case OpComplete, OpError:
 		p := m.Periods[st.Period]
-		pt := PtComplete
+		pts := []string{PtComplete, PtWComplete}
 		if st.Op == OpError {
-			pt = PtError
+			pts = []string{PtError, PtWError}
 		}
 		if p.Live {
 			for _, i := range p.Subs {
-				out = append(out, Split{Point: pt, Target: i})
+				for _, pt := range pts {
+					out = append(out, Split{Point: pt, Target: i})
+				}
 			}
 		}
 	}
@@ -358,6 +362,7 @@ func (g *gen) emit(st Step) {
 	m.Begin(st, true)
 	want := 1 + g.intn(2, "nestedCount")
 	var blocked []Step
+	writerBlocked := false
 	for tries := 0; len(st.Split.Nested) < want && tries < 8; tries++ {
 		var n Step
 		ok := false
@@ -370,12 +375,13 @@ func (g *gen) emit(st Step) {
 		if !ok {
 			continue
 		}
-		if !g.nestedAllowed(st, n, len(blocked)) {
+		if !m.NestedAdmissible(st, n, len(blocked), writerBlocked) || !g.nestedAllowed(st, n) {
 			continue
 		}
 		st.Split.Nested = append(st.Split.Nested, n)
-		if Blocks(st, n) {
+		if m.Blocks(st, n) {
 			blocked = append(blocked, n)
+			writerBlocked = writerBlocked || m.BlocksOnWriter(st, n)
 			continue
 		}
 		m.Open()
@@ -392,16 +398,13 @@ func (g *gen) emit(st Step) {
 	g.h.Steps = append(g.h.Steps, st)
 }
 
-// nestedAllowed applies the determinism rules of the executor and the steering around recorded
-// findings to a nested step drawn while parent is parked.
-func (g *gen) nestedAllowed(parent, n Step, blockedSoFar int) bool {
+// nestedAllowed applies the steering around recorded findings to a nested step drawn while
+// parent is parked (the executor's determinism rules are Model.NestedAdmissible).
+func (g *gen) nestedAllowed(parent, n Step) bool {
 	m := g.m
-	if Blocks(parent, n) && blockedSoFar >= 1 {
-		return false // two calls blocked on one mutex would be released in an unknown order
-	}
 	switch parent.Split.Point {
 	case PtComplete, PtError:
-		if g.known(F19) && !Blocks(parent, n) {
+		if g.known(F19) && !m.Blocks(parent, n) {
 			// recorded finding: the parked Complete/Error is written although its subscriber was
 			// removed (and its completion signalled) meanwhile
 			if x := m.Subs[parent.Split.Target]; x.Live {
